@@ -277,6 +277,10 @@ def jobs(tier, seed):
     out.append(dict(kind="rr", op="logical_or", n=n, dta="bool", dtb="bool"))
     for op in ("between", "selfsub", "timesmask"):
         out.append(dict(kind="rr_shared", op=op, n=n))
+    for dt_ in ("int8", "uint8"):
+        for kind_ in ("rs", "sr", "opr"):
+            out.append(dict(kind=kind_, op="add", n=n, dta=dt_))          # a python scalar keeps the array's element type (and wraps in it)
+        out.append(dict(kind="rs", op="subtract", n=n, dta=dt_))
     for how, ops in (("gt", ("any", "npany", "all", "sum", "max")), ("mulzero", ("any", "all")), ("concat", ("any", "sum"))):
         for op in ops:
             out.append(dict(kind="reduce_derived", op=op, how=how, n=n))
